@@ -273,6 +273,8 @@ class Plugin(BasePlugin):
     def shrink(self, case):
         ops = case['ops']
         for i in range(len(ops)):
+            if i == 0 and ops[0].get('op') == 'clock':
+                continue
             yield dict(case, ops=ops[:i] + ops[i + 1:])
         for i, op in enumerate(ops):
             for key in ('doc', 'update', 'filter', 'repl', 'arg', 'proj'):
